@@ -315,7 +315,7 @@ func classifySite(w *World, fn, kind string, operand *Term, desc string) string 
 	switch {
 	case operand == nil:
 		return desc
-	case kind == "slice" && operand.Kind == "call" && operand.Name == "strings.Split":
+	case kind == "slice" && operand.Kind == "call" && operand.Name == "strings.Split" && strings.HasSuffix(desc, "[<nil>:(len("+short(operand.String())+") - 1)]"):
 		return "strings.Split result [:len-1]"
 	case kind == "index" && operand.Kind == "field" && operand.Name == "Sigs" && operand.Args[0].Kind == "call" && operand.Args[0].Name == cParse:
 		return "Sigs[0] of the note opened from the witness's returned checkpoint"
@@ -929,6 +929,11 @@ func ruleSumDBConstants(w *World, r *Run) {
 			to := mk("param", cl.Params[2].Name(), 0, cl.Params[2].Type())
 			fsz, tsz := mk("field", "Size", 0, tUint64, from), mk("field", "Size", 0, tUint64, to)
 			for _, s := range sums {
+				// a proof is returned without asking tlog only when the witness holds nothing (from.Size == 0)
+				if len(s.Rets) == 2 && s.Rets[1].Kind == "nil" && len(calls(s, "golang.org/x/mod/sumdb/tlog.ProveTree")) == 0 {
+					k, v, _ := eqConstFact(s, fsz, "0")
+					r.Check(k && v, "C18.d", cl.String()+" | empty-proof shortcut only for from.Size == 0", w.pos(s.RetPos), "a proof is returned without tlog.ProveTree on a path that did not establish from.Size == 0 (e.g. from.Size <= 1): the witness then gets an empty proof for a real growth step")
+				}
 				for _, pv := range calls(s, "golang.org/x/mod/sumdb/tlog.ProveTree") {
 					n++
 					good := len(pv.Args) == 3 && pv.Args[0].Kind == "conv" && pv.Args[0].Args[0] == tsz && pv.Args[1].Kind == "conv" && pv.Args[1].Args[0] == fsz
